@@ -232,6 +232,14 @@ class Body:
                 if lenq:
                     self._lenctx -= 1
                 self._reads = saved
+            inl = inline_summary(f, name, args, (bi, 'term')) if depth < 20 else None
+            if inl is not None:
+                # a private, branch-free, effect-free callee is looked through (callee summary): its result is the
+                # callee's return expression over the caller's arguments, read at the call site
+                if getattr(self, '_reads', None) is not None:
+                    for l2, path in mem_leaves(inl):
+                        self._reads.append((l2, path, bi, getattr(self, '_lenctx', 0) > 0))
+                return inl
             return ('call', name, args, (bi, 'term'), pure)
         return self.expr_rvalue(r, depth + 1, (bi, si))
 
@@ -373,6 +381,107 @@ class Body:
                 if p and self._may_alias_mut(p['l'], leaf_local, proj_fields, depth + 1, len_only):
                     return True
         return False
+
+
+# ---------------------------------------------------------------------------------------- callee summaries
+FN_LOOKUP = [None]          # set by the census: def path -> function facts (with MIR) of the crate under analysis
+_SUMMARY = {}
+
+
+def summary_of(fn):
+    """return expression of a crate-local function over ('arg', i, ty) leaves, or None.  Only functions whose MIR is one
+    straight path (goto / overflow-or-bounds assert / pure call -> ... -> return; no switch, no loop, no `&mut` / raw
+    pointer parameter, no effectful call) have one: for them the value returned is a function of the arguments and of
+    the memory they point to, read at the call."""
+    key = id(fn)
+    if key in _SUMMARY:
+        return _SUMMARY[key][1]
+    _SUMMARY[key] = (fn, None)            # recursion guard; keeps fn alive so that id() stays unique
+    m = fn.get('mir')
+    if not m:
+        return None
+    b = Body(fn)
+    for i in range(1, b.argc + 1):
+        ty = b.local_ty(i)
+        if ty.startswith('&mut') or ty.startswith('*mut') or ty.startswith('*const') or i in b.defs:
+            return None
+    bi, seen = 0, set()
+    while True:
+        if bi in seen or len(seen) > 40:
+            return None
+        seen.add(bi)
+        blk = b.blocks[bi]
+        for st in blk['stmts']:
+            if st['k'] == 'assign' and st['p']['p'] and st['p']['p'][0] == '*':
+                return None             # a write through a pointer
+        t = blk['term']
+        k = t['k']
+        if k == 'return':
+            break
+        if k in ('goto', 'assert') and t.get('t') is not None:
+            bi = t['t']
+        elif k == 'call' and t.get('t') is not None and 'f' in t['fn']:
+            cf = t['fn']
+            cn = cf.get('resolved') or cf.get('f')
+            if cn and cn.startswith('parity_scale_codec::'):
+                cn = cn[len('parity_scale_codec::'):]
+            if not is_pure_call(cn, t.get('aty') or []):
+                sub = FN_LOOKUP[0](cn) if FN_LOOKUP[0] and (cf.get('local') or cf.get('resolved_local')) else None
+                if sub is None or summary_of(sub) is None:
+                    return None
+            bi = t['t']
+        else:
+            return None
+    b._pts = set()
+    b._reads = None
+    try:
+        e = b.expr_operand({'copy': {'l': 0, 'p': []}}, 0, (bi, 'term'))
+    except (KeyError, TypeError, IndexError):
+        return None
+    if not _summary_ok(e):
+        return None
+    _SUMMARY[key] = (fn, e)
+    return e
+
+
+def _summary_ok(e):
+    if not isinstance(e, tuple) or not e:
+        return True
+    if e[0] in ('mut', 'opaque', 'proj'):
+        return False
+    if e[0] == 'call' and (len(e) < 5 or not e[4]):
+        return False
+    return all(_summary_ok(x) for x in e[1:] if isinstance(x, tuple))
+
+
+def _subst(e, args, site):
+    if not isinstance(e, tuple) or not e:
+        return e
+    if e[0] == 'arg':
+        return args[e[1] - 1] if 0 <= e[1] - 1 < len(args) else ('opaque', 'arg')
+    if e[0] == 'call':
+        return ('call', e[1], tuple(_subst(a, args, site) for a in e[2]), site, e[4])
+    r = tuple(_subst(x, args, site) if isinstance(x, tuple) else x for x in e)
+    if r[0] == 'deref' and isinstance(r[1], tuple) and r[1] and r[1][0] == 'ref':
+        return r[1][1]
+    return r
+
+
+def inline_summary(f, name, args, site):
+    look = FN_LOOKUP[0]
+    if look is None or not name or not ('f' in f):
+        return None
+    if not (f.get('local') or f.get('resolved_local') or f.get('crate') == 'parity_scale_codec'):
+        return None
+    fn = look(name)
+    if fn is None:
+        return None
+    e = summary_of(fn)
+    if e is None:
+        return None
+    if any(isinstance(a, tuple) and a and a[0] == 'opaque' for a in args):
+        return None
+    return _subst(e, args, site)
 
 
 PURE_NAMES = {'split_at', 'split_first', 'split_last', 'first', 'last', 'get', 'len', 'is_empty', 'size_of', 'align_of', 'min', 'max', 'unwrap_or', 'from', 'into', 'try_from', 'try_into',
